@@ -196,6 +196,12 @@ static int arena_make(arena_t *a, int mem, long n, const char *lay, int ndims, c
         for (k = 0; k < n; k++) a->off[k] = k;
         nslots = n;
         PMPI_Type_contiguous((int)n, base, &a->dtype); PMPI_Type_commit(&a->dtype); a->dtype_derived = 1; a->bufcount = 1;
+    } else if (!strcmp(lay, "cont2")) {
+        /* contiguous derived type of K elements, bufcount = n / K > 1 where n allows (element count of the type != bufcount) */
+        long K = (n % 2 == 0 && n >= 4) ? 2 : ((n % 3 == 0 && n >= 6) ? 3 : n);
+        for (k = 0; k < n; k++) a->off[k] = k;
+        nslots = n;
+        PMPI_Type_contiguous((int)K, base, &a->dtype); PMPI_Type_commit(&a->dtype); a->dtype_derived = 1; a->bufcount = n / K;
     } else if (!strncmp(lay, "vec:", 4) || !strncmp(lay, "hvec:", 5) || !strncmp(lay, "rsz:", 4)) {
         long B = 1, S = 2, nb; const char *p = strchr(lay, ':') + 1;
         sscanf(p, "%ld:%ld", &B, &S);
@@ -227,6 +233,7 @@ static int arena_make(arena_t *a, int mem, long n, const char *lay, int ndims, c
         MPI_Datatype twin = MPI_DATATYPE_NULL; int *ia, *pk, pos = 0; long i;
         /* rebuild with MPI_INT */
         if (!strcmp(lay, "cont1")) PMPI_Type_contiguous((int)n, MPI_INT, &twin);
+        else if (!strcmp(lay, "cont2")) PMPI_Type_contiguous((int)(n / a->bufcount), MPI_INT, &twin);
         else if (!strcmp(lay, "idx")) { int *bl = malloc(sizeof(int) * n), *ds = malloc(sizeof(int) * n); for (k = 0; k < n; k++) { bl[k] = 1; ds[k] = (int)(2 * k + (k & 1)); } PMPI_Type_indexed((int)n, bl, ds, MPI_INT, &twin); free(bl); free(ds); }
         else { long B = 1, S = 2, nb; sscanf(strchr(lay, ':') + 1, "%ld:%ld", &B, &S); if (B < 1 || n % B) B = 1; if (S < B) S = B + 1; nb = n / B;
             if (lay[0] == 'v') PMPI_Type_vector((int)nb, (int)B, (int)S, MPI_INT, &twin);
